@@ -59,8 +59,11 @@ Definition sched_clean : list caction :=
 Lemma clean_example :
   bus_history (scfg pc_w) h_clean = true /\
   let x := crun pc_w h_clean sched_clean in
-  w_lost (cw x) = false /\ caught_up x /\ received x h_clean = h_clean /\ c_ready x = Some true /\
+  ~ Known_C31 pc_w h_clean sched_clean /\ caught_up x /\ received x h_clean = h_clean /\ c_ready x = Some true /\
   map (cached x) [0; 1; 2; 3] = [Some 7; None; Some 4; None] /\
   map (spec_cache pc_w h_clean) [0; 1; 2; 3] = [Some 7; None; Some 4; None] /\
   c_seen x = [(0, Some 7)].
-Proof. vm_compute. repeat split; reflexivity. Qed.
+Proof.
+  split; [vm_compute; reflexivity|]. cbv zeta. split; [intro H; vm_compute in H; discriminate|].
+  vm_compute. repeat split; reflexivity.
+Qed.
